@@ -632,17 +632,15 @@ func (t *Typechecker) VisitGrouping(expr *ast.Grouping) ast.VisitResult {
 func (t *Typechecker) VisitFuncCall(callExpr *ast.FuncCall) ast.VisitResult {
 	decl := callExpr.Func
 
-	for k, expr := range callExpr.Args {
-		argType := t.Evaluate(expr)
-
-		var paramType ddptypes.ParameterType
-
-		for _, param := range decl.Parameters {
-			if param.Name.Literal == k {
-				paramType = param.Type
-				break
-			}
+	// in the order of the parameters (not of the map), so that the diagnostics do not change from run to run
+	for _, param := range decl.Parameters {
+		k := param.Name.Literal
+		expr, ok := callExpr.Args[k]
+		if !ok {
+			continue
 		}
+		argType := t.Evaluate(expr)
+		paramType := param.Type
 
 		if ass, ok := expr.(ast.Assigneable); paramType.IsReference && !ok {
 			t.errExpr(ddperror.TYP_EXPECTED_REFERENCE, expr, "Es wurde ein Referenz-Typ erwartet aber ein Ausdruck gefunden")
@@ -668,16 +666,15 @@ func (t *Typechecker) VisitFuncCall(callExpr *ast.FuncCall) ast.VisitResult {
 }
 
 func (t *Typechecker) VisitStructLiteral(expr *ast.StructLiteral) ast.VisitResult {
-	for argName, arg := range expr.Args {
-		argType := t.Evaluate(arg)
-
-		var paramType ddptypes.Type
-		for _, field := range expr.Type.Fields {
-			if field.Name == argName {
-				paramType = field.Type
-				break
-			}
+	// in the order of the fields (not of the map), so that the diagnostics do not change from run to run
+	for _, field := range expr.Type.Fields {
+		argName := field.Name
+		arg, ok := expr.Args[argName]
+		if !ok {
+			continue
 		}
+		argType := t.Evaluate(arg)
+		paramType := field.Type
 
 		if !ddptypes.Equal(argType, paramType) {
 			t.errExpr(ddperror.TYP_TYPE_MISMATCH, arg,
